@@ -194,6 +194,27 @@ pub fn generate_c12(thorough: bool, seed: u64, part: (usize, usize), em: &mut Em
             ops.push("P5:6:0:0".into());
             emit(em, 1004, 800, 600, 0x409, "rdp-rs", &ops, None);
         }
+        // several share-control PDUs packed into ONE MCS frame in the active state: every one of them is dispatched —
+        // a deactivate-all behind another PDU closes the input window, the next demand-active is answered
+        // (model correspondence only: the alphabet oracle has one letter per frame)
+        for k in 0..6u32 {
+            let mut g = Gen { r: &mut r, share: 0x000103ea };
+            let mut ops: Vec<String> = vec![];
+            for l in &[0u64, 1, 2, 3, 5] { ops.push(g.letter(*l).0); }
+            ops.push("P1:2:1:1".into());
+            let sid = g.share;
+            let first = match k % 3 { 0 => refsrv::share_data(sid, 0x26, &[1, 2, 3, 4]), 1 => refsrv::error_info(sid, 7), _ => refsrv::share_data(sid, 0x36, &[]) };
+            let mut packed = first.clone(); packed.extend(refsrv::deactivate_all(sid, b"RDP\0"));
+            if k >= 3 { packed.extend(refsrv::share_data(sid, 0x26, &[9])); }
+            ops.push(format!("R{}", hex(&packed)));
+            ops.push("P3:4:0:0".into()); ops.push("TK30:1".into());
+            for l in &[0u64, 1, 2, 3, 5] { ops.push(g.letter(*l).0); }
+            ops.push("K31:1".into());
+            // two ignored PDUs in one frame leave the window open
+            let mut two = refsrv::error_info(g.share, 3); two.extend(refsrv::share_data(g.share, 0x26, &[5, 6]));
+            ops.push(format!("R{}", hex(&two))); ops.push("P9:9:0:0".into());
+            emit(em, 1004, 800, 600, 0x409, "rdp-rs", &ops, None);
+        }
         // demand-active PDUs of 100..300 and > 255 bytes (the MCS length changes form at 128 and 256),
         // font maps whose mapFlags are not the usual 0x0003
         for extra in (0usize..220).step_by(7).chain([1000usize, 5000].iter().cloned()) { for mf in &[3u16, 0, 1, 2] {
